@@ -17,6 +17,7 @@ import os, re, sys
 sys.path.insert(0, os.path.dirname(os.path.abspath(__file__)))
 import rs2lean_analyze as ra
 import rs2lean_vm as rv
+import rs2lean_ints as ints
 from rs2lean_analyze import Unsupported, bad, matching, top_level_positions, parse_struct, int_of
 from rs2lean_vm import tokenize, lean_id, LITERALS
 
@@ -30,11 +31,13 @@ DEFAULT_OUT = os.path.join(VERIF, 'lean', 'FancyModel', 'GeneratedState.lean')
 class Parser(rv.Parser):
     """statements of `impl State`: blocks have an optional tail expression"""
 
+    ASSIGN_OPS = ('=', '+=')        # what the inherited `simple_stmt` lets through (this translator parses assignments itself)
+
     def expr(self, no_struct=False):
         l = self.p_oror(no_struct)
         if self.at('..'):
             ln = self.next().line
-            if self.at(']'):
+            if self.at(']') or self.at(')'):
                 return ('range', l, None, ln)
             return ('range', l, self.p_oror(no_struct), ln)
         if self.at('..='):
@@ -181,16 +184,20 @@ class Parser(rv.Parser):
                 if self.peek().kind != 'id' or self.peek(1).text not in (':', '='):
                     bad('`let` with a pattern that is not an identifier, a tuple of identifiers or `Struct { .. }`', t.line)
                 name = self.ident()
+                ty = None
                 if self.at(':'):
-                    bad('`let` with a type annotation', t.line)
-                self.next()
+                    self.next()
+                    ty = self.type_(['=', ';'])
+                    if not (ints.is_int(ty) or ty == 'bool'):
+                        bad('`let` with a type annotation other than an integer type / bool', t.line)
+                self.expect('=')
                 if self.at('{'):
                     bad('block expression (only `let (a, b) = { … };`)', t.line)
                 e = self.expr()
                 if self.at('else'):
                     bad('`let … else`', t.line)
                 self.expect(';')
-                stmts.append(('let', name, mut, e, t.line))
+                stmts.append(('let', name, mut, e, t.line) if ty is None else ('let', name, mut, e, ty, t.line))
             elif t.kind == 'id' and t.text == 'for':
                 self.next()
                 if self.peek().kind == 'id' and self.peek(1).text == 'in':
@@ -213,6 +220,13 @@ class Parser(rv.Parser):
                 e = None if self.at(';') else self.expr()
                 self.expect(';')
                 stmts.append(('return', e, t.line))
+            elif t.kind == 'id' and t.text == 'while' and self.peek(1).text != 'let':
+                self.next()
+                cnd = self.expr(no_struct=True)
+                body, btail = self.block()
+                if btail is not None:
+                    bad('`while` body with a tail expression', t.line)
+                stmts.append(('while', cnd, body, t.line))
             elif t.kind == 'id' and t.text in ('while', 'loop', 'match', 'unsafe', 'fn', 'struct', 'use', 'const', 'static', 'break',
                                                'continue'):
                 bad('`%s` statement' % t.text, t.line)
@@ -223,13 +237,11 @@ class Parser(rv.Parser):
             else:
                 e = self.expr()
                 nt = self.peek()
-                if nt.kind == 'op' and nt.text in ('=', '+=', '-=', '&=', '|=', '*=', '/=', '%=', '^='):
-                    self.next()
-                    if nt.text not in ('=', '+=', '-='):
-                        bad('compound assignment `%s`' % nt.text, nt.line)
+                op = self.assign_op(('=', '+=', '-=', '*=', '|=', '&=', '^=', '<<=', '>>='))
+                if op:
                     r = self.expr()
                     self.expect(';')
-                    stmts.append(('assign', e, nt.text, r, t.line))
+                    stmts.append(('assign', e, op, r, t.line))
                 elif self.at(';'):
                     self.next()
                     stmts.append(('expr', e, t.line))
@@ -253,12 +265,22 @@ STRUCTS = {
 }
 TYPE_TAGS = {'usize': 'usize', 'bool': 'bool', 'Vec<usize>': 'VecUsize', 'Vec<Branch>': 'VecBranch', 'Vec<Save>': 'VecSave',
              'u32': 'u32', 'Result<()>': 'ResultUnit', '(usize,usize)': 'tuple2', 'State': 'State', '()': 'unit'}
-LEAN_T = {'usize': 'Nat', 'bool': 'Bool', 'Branch': 'Branch', 'Save': '(Nat × Nat)', 'VecUsize': 'List Nat',
+LEAN_T = {'usize': 'Nat', 'u64': 'Nat', 'u32': 'Nat', 'u16': 'Nat', 'u8': 'Nat', 'OptUsize': 'Option Nat', 'bool': 'Bool', 'Branch': 'Branch', 'Save': '(Nat × Nat)', 'VecUsize': 'List Nat',
           'VecBranch': 'List Branch', 'VecSave': 'List (Nat × Nat)', 'SetUsize': 'List Nat', 'unit': 'Unit',
           'ResultUnit': 'RResult', 'tuple2': '(Nat × Nat)', 'State': 'RState'}
 ELEM = {'VecUsize': 'usize', 'VecBranch': 'Branch', 'VecSave': 'Save'}
 SKIPPED_METHODS = {'trace_stack'}
 RESERVED = {'acc', 'm', 'n', 'v', 'rest_', 'x_'}
+
+
+def vid(name):
+    """the Lean identifier of a Rust variable: a name that the generated code uses for itself (RESERVED, `t1`, `t2`, …) is
+    renamed apart (`n` -> `n_rs`), so that a local may be called anything"""
+    return lean_id(name + '_rs') if (name in RESERVED or re.match(r't[0-9]+$', name)) else lean_id(name)
+
+
+def clash_rs(name):
+    return name.endswith('_rs') and (name[:-3] in RESERVED or re.match(r't[0-9]+$', name[:-3]) is not None)
 
 
 def camel(name):
@@ -348,7 +370,21 @@ class Translator:
     def ex(self, e, c, expect=None):
         k, line = e[0], e[-1]
         if k == 'int':
-            return [], str(e[1]), 'usize'
+            t = expect if ints.is_int(expect) else 'usize'
+            if not ints.fits(e[1], t):
+                bad('the literal %d does not fit the type %s' % (e[1], t), line)
+            return [], str(e[1]), t
+        if k == 'tint':
+            if not ints.is_int(e[2]) or not ints.fits(e[1], e[2]):
+                bad('integer literal of type %s' % e[2], line)
+            return [], str(e[1]), e[2]
+        if k == 'cast':
+            pre, s, t = self.ex(e[1], c)
+            if e[2] in ints.SIGNED:
+                bad('cast to the signed / 128-bit type %s (not in the subset)' % e[2], line)
+            if not (ints.is_int(t) and ints.is_int(e[2])):
+                bad('cast from %s to %s' % (t, e[2]), line)
+            return pre, ints.cast(s, t, e[2]), e[2]
         if k == 'bool':
             return [], ('true' if e[1] else 'false'), 'bool'
         if k == 'unit':
@@ -358,6 +394,8 @@ class Translator:
         if k == 'path':
             if e[1] == ['usize', 'MAX']:
                 return [], 'UNSET', 'usize'
+            if len(e[1]) == 2 and e[1][1] == 'MAX' and ints.is_int(e[1][0]):
+                return [], str(ints.modulus(e[1][0]) - 1), e[1][0]
             if len(e[1]) != 1:
                 bad('path `%s` as a value' % '::'.join(e[1]), line)
             n = e[1][0]
@@ -365,7 +403,7 @@ class Translator:
                 bad('unknown variable `%s`' % n, line)
             if n == 'self':
                 bad('`self` as a value', line)
-            return [], lean_id(n), c.types[n]
+            return [], vid(n), c.types[n]
         if k == 'field':
             pre, s, t = self.ex_place(e[1], c)
             if t not in ('State', 'Branch', 'Save'):
@@ -375,11 +413,13 @@ class Translator:
         if k in ('ref', 'refmut'):
             bad('`&` expression here', line)
         if k == 'not':
-            pre, s, t = self.ex(e[1], c)
+            pre, s, t = self.ex(e[1], c, expect)
+            if ints.is_int(t):
+                return pre, ints.bitnot(s, t), t
             self.want(t, 'bool', 'operand of `!`', line)
             return pre, '(!%s)' % s, 'bool'
         if k == 'bin':
-            return self.ex_bin(e, c)
+            return self.ex_bin(e, c, expect)
         if k == 'index':
             _, base, idx, _ = e
             if idx[0] == 'range':
@@ -467,9 +507,32 @@ class Translator:
         lean_name = {'State': 'RState', 'Branch': 'Branch'}[name]
         return pre, '({ %s } : %s)' % (', '.join('%s := %s' % v for v in vals), lean_name), name
 
-    def ex_bin(self, e, c):
+    def ex_pair(self, a, b, c, expect=None):
+        """both operands of an operator whose operands have one type: an unsuffixed literal takes the type of the other side
+        (else of the context)"""
+        if ints.literalish(a) and not ints.literalish(b):
+            rb = self.ex(b, c, expect)
+            return self.ex(a, c, rb[2] if ints.is_int(rb[2]) else expect), rb
+        ra_ = self.ex(a, c, expect)
+        return ra_, self.ex(b, c, ra_[2] if ints.is_int(ra_[2]) and ints.literalish(b) else expect)
+
+    def ex_bin(self, e, c, expect=None):
         _, op, a, b, line = e
-        (pa, l, tl), (pb, r, tr) = self.ex(a, c), self.ex(b, c)
+        if op in ('<<', '>>'):
+            if ints.literalish(a) and not ints.is_int(expect):
+                bad('`%s` on an integer literal whose type is not evident here' % op, line)
+            (pa, l, tl), (pb, r, tr) = self.ex(a, c, expect), self.ex(b, c)
+            if not (ints.is_int(tl) and ints.is_int(tr)):
+                bad('`%s` between %s and %s' % (op, tl, tr), line)
+            return pa + pb, ints.shift(op, l, r, tl), tl
+        (pa, l, tl), (pb, r, tr) = self.ex_pair(a, b, c, expect if op in ('+', '*', '-', '|', '&', '^') else None)
+        if op in ('|', '&', '^') and ints.is_int(tl):
+            if tl != tr:
+                bad('`%s` between %s and %s' % (op, tl, tr), line)
+            return pa + pb, ints.bitop(op, l, r), tl
+        if op in ('|', '&') and tl == 'bool':
+            self.want(tr, 'bool', 'right operand of `%s`' % op, line)
+            return pa + pb, '(%s %s %s)' % (l, '||' if op == '|' else '&&', r), 'bool'
         if op in ('||', '&&'):
             self.want(tl, 'bool', 'left operand of `%s`' % op, line)
             self.want(tr, 'bool', 'right operand of `%s`' % op, line)
@@ -477,22 +540,20 @@ class Translator:
                 bad('the right operand of `%s` can panic' % op, line)
             return pa, '(%s %s %s)' % (l, op, r), 'bool'
         if op in ('==', '!='):
-            if tl != tr or tl not in ('usize', 'bool'):
+            if tl != tr or not (tl == 'bool' or ints.is_int(tl)):
                 bad('`%s` between %s and %s' % (op, tl, tr), line)
             return pa + pb, '(%s %s %s)' % (l, op, r), 'bool'
         if op in ('<', '<=', '>', '>='):
-            if tl != 'usize' or tr != 'usize':
+            if tl != tr or not ints.is_int(tl):
                 bad('`%s` between %s and %s' % (op, tl, tr), line)
             return pa + pb, '(decide (%s %s %s))' % (l, {'<': '<', '<=': '≤', '>': '>', '>=': '≥'}[op], r), 'bool'
-        if op == '+':
-            self.want(tl, 'usize', 'left operand of `+`', line)
-            self.want(tr, 'usize', 'right operand of `+`', line)
-            return pa + pb, '(%s + %s)' % (l, r), 'usize'
-        if op == '-':
-            self.want(tl, 'usize', 'left operand of `-`', line)
-            self.want(tr, 'usize', 'right operand of `-`', line)
-            h, t = self.hoist('checkedSub %s %s' % (l, r), c, 'sub')
-            return pa + pb + [h], t, 'usize'
+        if op in ('+', '*', '-'):
+            if tl != tr or not ints.is_int(tl):
+                bad('`%s` between %s and %s' % (op, tl, tr), line)
+            if op == '-':
+                h, t = self.hoist('checkedSub %s %s' % (l, r), c, 'sub')
+                return pa + pb + [h], t, tl
+            return pa + pb, ints.arith(op, l, r, tl), tl
         bad('operator `%s`' % op, line)
 
     def self_call(self, e, c):
@@ -544,10 +605,37 @@ class Translator:
             pa, a, ta = self.ex(args[0], c)
             self.want(ta, 'usize', 'argument of insert', line)
             t = self.fresh()
-            return pa + [('let', '(%s, %s)' % (t, lean_id(v)), 'btreeInsert %s %s' % (lean_id(v), a))], t, 'bool'
+            return pa + [('let', '(%s, %s)' % (t, vid(v)), 'btreeInsert %s %s' % (vid(v), a))], t, 'bool'
         pre, r, t = self.ex_place(recv, c)
         if t in ELEM and m == 'len' and not args:
             return pre, '%s.length' % r, 'usize'
+        if t in ELEM and m == 'is_empty' and not args:
+            return pre, '%s.isEmpty' % r, 'bool'
+        if t == 'SetUsize' and m == 'contains' and len(args) == 1 and args[0][0] == 'ref':
+            pa, a, ta = self.ex(args[0][1], c)
+            self.want(ta, 'usize', 'argument of contains', line)
+            return pre + pa, '(List.elem %s %s)' % (a, r), 'bool'
+        if ints.is_int(t) and m in ints.METHODS:
+            if len(args) != 1:
+                bad('`.%s(..)` takes one argument' % m, line)
+            kind = ints.METHODS[m]
+            want = t if kind[1] == 'same' else kind[1]
+            pa, a, ta = self.ex(args[0], c, want)
+            self.want(ta, want, 'argument of `.%s`' % m, line)
+            if kind[2] == 'opt':
+                if t != 'usize':
+                    bad('`.%s(..)` on a value of type %s (an Option of it has no counterpart here)' % (m, t), line)
+                return pre + pa, ints.method(m, r, a, t), 'OptUsize'
+            return pre + pa, ints.method(m, r, a, t), t
+        if t == 'OptUsize' and m == 'unwrap_or' and len(args) == 1:
+            pa, a, ta = self.ex(args[0], c, 'usize')
+            self.want(ta, 'usize', 'argument of `.unwrap_or`', line)
+            return pre + pa, '(Option.getD %s %s)' % (r, a), 'usize'
+        if t == 'OptUsize' and m == 'unwrap' and not args:
+            h, tv = self.hoist(r, c, 'unwrap')
+            return pre + [h], tv, 'usize'
+        if t == 'OptUsize' and m in ('is_some', 'is_none') and not args:
+            return pre, '(Option.%s %s)' % ('isSome' if m == 'is_some' else 'isNone', r), 'bool'
         if m == 'pop':
             bad('`.pop()` without `.unwrap()`', line)
         bad('method call `.%s(…)` on a value of type %s' % (m, t), line)
@@ -570,7 +658,7 @@ class Translator:
             return [('let', 'self', '{ self with %s := %s }' % (proj, val))]
         if place[0] == 'path' and len(place[1]) == 1 and place[1][0] != 'self':
             self.check_assignable(c, place[1][0], line)
-            return [('let', lean_id(place[1][0]), val)]
+            return [('let', vid(place[1][0]), val)]
         bad('this place cannot be written (only `self.field` and `let mut` locals)', line)
 
     # ---- which names a statement list changes
@@ -597,6 +685,13 @@ class Translator:
                 self.mutated(y, out)
         return out
 
+    def calls(self, x, m):
+        if isinstance(x, tuple) and x:
+            if x[0] == 'mcall' and is_path(x[1], 'self') and x[2] == m:
+                return True
+            return any(self.calls(y, m) for y in x[1:])
+        return isinstance(x, list) and any(self.calls(y, m) for y in x)
+
     def free_names(self, x, out):
         if isinstance(x, tuple) and x:
             if x[0] == 'path' and isinstance(x[1], list) and len(x[1]) == 1 and x[1][0] not in out:
@@ -613,11 +708,12 @@ class Translator:
         return out
 
     # ---- statements, continuation-passing
-    def bind(self, c, name, tag, mut, line):
-        if name in c.types or name in RESERVED or name in self.names or re.match(r't[0-9]+$', name):
-            bad('`let %s` shadows a name that is in scope (shadowing is not in the subset)' % name, line)
+    def bind(self, c, name, tag, mut, line, shadow=False):
+        if (name in c.types and not (shadow and name != 'self' and name not in c.readonly)) or clash_rs(name) or name in self.names:
+            bad('`let %s` shadows a name of an enclosing scope / a parameter (only an earlier `let` of the same block may be shadowed)' % name, line)
         c2 = c.copy()
         c2.types[name] = tag
+        c2.mutable.discard(name)
         if mut:
             c2.mutable.add(name)
         return c2
@@ -625,6 +721,7 @@ class Translator:
     def block(self, stmts, c, ind, k):
         if not stmts:
             return k(c, ind)
+        ints.mark_shadow_lets(stmts, self)
         s, rest = stmts[0], stmts[1:]
         kind, line = s[0], s[-1]
         cont = lambda c2, ind2: self.block(rest, c2, ind2, k)
@@ -633,13 +730,16 @@ class Translator:
             return cont(c, ind2)
 
         if kind == 'let':
-            _, name, mut, e, _ = s
-            pre, txt, t = self.ex(e, c)
+            name, mut, e = s[1], s[2], s[3]
+            ty = s[4] if len(s) == 6 else None
+            pre, txt, t = self.ex(e, c, ty)
             if t not in LEAN_T:
                 bad('`let %s` of a value of type %s' % (name, t), line)
-            c2 = self.bind(c, name, t, mut, line)
+            if ty is not None:
+                self.want(t, ty, 'initialiser of `let %s: %s`' % (name, ty), line)
+            c2 = self.bind(c, name, t, mut, line, ints.shadow_ok(self, s))
             out, i2 = self.emit_pre(pre, ind)
-            return out + [i2 + 'let %s : %s := %s' % (lean_id(name), LEAN_T[t], txt)] + cont(c2, i2)
+            return out + [i2 + 'let %s : %s := %s' % (vid(name), LEAN_T[t], txt)] + cont(c2, i2)
         if kind == 'letstruct':
             _, (sname, items, pline), e, _ = s
             if sname not in ('Branch', 'Save'):
@@ -652,7 +752,7 @@ class Translator:
                 proj, tag = self.field_of(sname, f, pline)
                 if b:
                     c2 = self.bind(c2, b, tag, False, line)
-                    out.append(i2 + 'let %s : %s := %s.%s' % (lean_id(b), LEAN_T[tag], txt, proj))
+                    out.append(i2 + 'let %s : %s := %s.%s' % (vid(b), LEAN_T[tag], txt, proj))
             return out + cont(c2, i2)
         if kind == 'lettuple':
             _, names, e, _ = s
@@ -676,7 +776,7 @@ class Translator:
                 for n, v in zip(names, vals):
                     if n:
                         c2 = self.bind(c2, n, 'usize', False, line)
-                        out.append(i3 + 'let %s : Nat := %s' % (lean_id(n), v))
+                        out.append(i3 + 'let %s : Nat := %s' % (vid(n), v))
                 # what the block changed outside itself stays changed (same names), its own locals go out of scope
                 return out + cont(c2, i3)
             for st in bstmts:
@@ -703,18 +803,29 @@ class Translator:
                 proj, ttype = self.field_of('State', target[2], line)
                 cur = 'self.%s' % proj
             elif target[0] == 'path' and len(target[1]) == 1 and target[1][0] in c.types and target[1][0] != 'self':
-                ttype, cur = c.types[target[1][0]], lean_id(target[1][0])
+                ttype, cur = c.types[target[1][0]], vid(target[1][0])
             else:
                 bad('assignment to something other than `self.field`, `v[i]` or a local', line)
-            pre, txt, t = self.ex(e, c)
-            self.want(t, ttype, 'right-hand side of the assignment', line)
-            if op in ('+=', '-='):
-                self.want(ttype, 'usize', 'target of `%s`' % op, line)
-                if op == '+=':
-                    txt = '(%s + %s)' % (cur, txt)
-                else:
+            if op in ('<<=', '>>='):
+                pre, txt, t = self.ex(e, c)
+                if not (ints.is_int(ttype) and ints.is_int(t)):
+                    bad('`%s` between %s and %s' % (op, ttype, t), line)
+                txt = ints.shift(op[:2], cur, txt, ttype)
+            else:
+                pre, txt, t = self.ex(e, c, ttype)
+                self.want(t, ttype, 'right-hand side of the assignment', line)
+            if op in ('+=', '-=', '*=', '|=', '&=', '^='):
+                if not (ints.is_int(ttype) or (ttype == 'bool' and op in ('|=', '&='))):
+                    bad('`%s` on a place of type %s' % (op, ttype), line)
+                if ttype == 'bool':
+                    txt = '(%s %s %s)' % (cur, '||' if op == '|=' else '&&', txt)
+                elif op in ('+=', '*='):
+                    txt = ints.arith(op[0], cur, txt, ttype)
+                elif op == '-=':
                     h, txt = self.hoist('checkedSub %s %s' % (cur, txt), c, 'sub')
                     pre = pre + [h]
+                else:
+                    txt = ints.bitop(op[0], cur, txt)
             out, i2 = self.emit_pre(pre + self.store(target, txt, c, line), ind)
             return out + cont(c, i2)
         if kind == 'expr':
@@ -773,6 +884,8 @@ class Translator:
             return out
         if kind == 'for':
             return self.for_loop(s, c, ind, cont)
+        if kind == 'while':
+            return self.while_loop(s, c, ind, cont)
         if kind == 'return':
             if rest:
                 bad('statement after `return`', rest[0][-1])
@@ -808,12 +921,12 @@ class Translator:
         free = self.free_names(body, [])
         cap = sorted(v for v in free if v in c.types and v not in acc and (v == 'self' or c.types[v] in LEAN_T))
         tyof = lambda v: 'RState' if v == 'self' else LEAN_T[c.types[v]]
-        acc_pat = lean_id(acc[0]) if len(acc) == 1 else '(%s)' % ', '.join(lean_id(v) for v in acc) if acc else '()'
+        acc_pat = vid(acc[0]) if len(acc) == 1 else '(%s)' % ', '.join(vid(v) for v in acc) if acc else '()'
         acc_ty = ' × '.join(tyof(v) for v in acc) if acc else 'Unit'
         if len(acc) > 1:
             acc_ty = '(%s)' % acc_ty
-        params = ''.join(' (%s : %s)' % (lean_id(v), tyof(v)) for v in cap)
-        call = name + ''.join(' ' + lean_id(v) for v in cap)
+        params = ''.join(' (%s : %s)' % (vid(v), tyof(v)) for v in cap)
+        call = name + ''.join(' ' + vid(v) for v in cap)
         wrap = lambda ty: '(%s)' % ty if ' ' in ty and not ty.startswith('(') else ty
         flow = 'Flow %s %s' % (wrap(acc_ty), wrap(LEAN_T[c.ret]))
         cl = c.copy()
@@ -834,19 +947,35 @@ class Translator:
                 cl = self.bind(cl, iv, 'usize', False, line)
                 cl.readonly.add(iv)
             lines = ['def %s%s : Nat → Nat → %s → %s' % (name, params, acc_ty, flow),
-                     '  | 0, %s, acc => .next acc' % lean_id(iv),
-                     '  | n + 1, %s, %s =>' % (lean_id(iv), acc_pat)]
-            lines += self.block(body, cl, '    ', lambda c2, i2: [i2 + '%s n (%s + 1) %s' % (call, lean_id(iv), acc_pat)])
+                     '  | 0, %s, acc => .next acc' % vid(iv),
+                     '  | n + 1, %s, %s =>' % (vid(iv), acc_pat)]
+            lines += self.block(body, cl, '    ', lambda c2, i2: [i2 + '%s n (%s + 1) %s' % (call, vid(iv), acc_pat)])
             start = '%s (%s - %s) %s %s' % (call, hi, lo, lo, acc_pat)
             doc = 'a `for` loop of `%s` over a range: iterations left, the loop variable, the accumulators' % c.fn
-        elif it[0] == 'ref' and it[1][0] == 'index' and it[1][2][0] == 'range':
-            base_e, rng = it[1][1], it[1][2]
+        elif (it[0] == 'ref' and it[1][0] == 'index' and it[1][2][0] == 'range') or \
+                (it[0] == 'mcall' and it[2] == 'drain' and len(it[3]) == 1 and it[3][0][0] == 'range' and it[3][0][2] is None):
+            drain = it[0] == 'mcall'
+            base_e, rng = (it[1], it[3][0]) if drain else (it[1][1], it[1][2])
             pb, b, tb = self.ex_place(base_e, c)
             if tb not in ELEM or pb:
                 bad('slice of a value of type %s' % tb, line)
             p1, lo, t1 = self.ex(rng[1], c)
             self.want(t1, 'usize', 'start of the slice', line)
-            if rng[2] is None:
+            if drain:
+                # `v.drain(a..)`: panics when `a > v.len()`; yields v[a..] in order; `v` (not reachable inside the loop: it is
+                # mutably borrowed) is cut to `a` whatever way the loop is left
+                def mentions(x):
+                    if isinstance(x, tuple) and x:
+                        if x == base_e or (x[0] == base_e[0] and x[1:-1] == base_e[1:-1]):
+                            return True
+                        return any(mentions(y) for y in x[1:])
+                    return isinstance(x, list) and any(mentions(y) for y in x)
+                if not ((base_e[0] == 'field' and is_path(base_e[1], 'self')) or (base_e[0] == 'path' and len(base_e[1]) == 1)) \
+                        or mentions(body) or any(self.methods[m][0] for m in self.methods if self.calls(body, m)):
+                    bad('`drain` on something other than `self.field` / a local, or the drained vector may be used inside the loop', line)
+                h, lst = self.hoist('sliceFrom %s %s' % (b, lo), c, 'drain')
+                pre = p1 + [h] + self.store(base_e, '(List.take %s %s)' % (lo, b), c, line)
+            elif rng[2] is None:
                 h, lst = self.hoist('sliceFrom %s %s' % (b, lo), c, 'slice')
                 pre = p1 + [h]
             else:
@@ -858,7 +987,7 @@ class Translator:
             binds = []
             if pat[0] == 'var':
                 cl = self.bind(cl, pat[1], et, False, line)
-                ev = lean_id(pat[1])
+                ev = vid(pat[1])
             else:
                 _, sname, items, pline = pat
                 if sname != et:
@@ -869,7 +998,7 @@ class Translator:
                     if bname:
                         cl = self.bind(cl, bname, tag, False, line)
                         cl.readonly.add(bname)
-                        binds.append('    let %s : %s := x_.%s' % (lean_id(bname), LEAN_T[tag], proj))
+                        binds.append('    let %s : %s := x_.%s' % (vid(bname), LEAN_T[tag], proj))
             lines = ['def %s%s : List %s → %s → %s' % (name, params, LEAN_T[et], acc_ty, flow),
                      '  | [], acc => .next acc',
                      '  | %s :: rest_, %s =>' % (ev, acc_pat)] + binds
@@ -884,6 +1013,73 @@ class Translator:
                 i2 + '| .ret self v => %s' % ('.ret self v' if c.loop else '.ok self v'),
                 i2 + '| .next %s =>' % acc_pat]
         return out + cont(c, i2 + '  ')
+
+    def while_loop(self, s, c, ind, cont):
+        """`while v < bound { …; v += k; }` with a bound on the number of iterations that is evident from the text: `v` is a
+        `let mut` integer that the body changes only in its last statement `v += k` (k a literal >= 1), `bound` cannot panic
+        and mentions nothing the body changes. Then `bound - v` iterations suffice: that is the fuel. Running out of it with the
+        test still true is the explicit outcome `.panic "<fn>: while (out of fuel)"` - nothing is assumed silently."""
+        _, cnd, body, line = s
+        if c.loop:
+            bad('nested loop', line)
+        cn = ints.strip(cnd)
+        why = 'no bound on the number of iterations is evident: expected `while v < bound { …; v += k; }`'
+        if not (cn[0] == 'bin' and cn[1] == '<' and cn[2][0] == 'path' and len(cn[2][1]) == 1):
+            bad('`while`: %s' % why, line)
+        v = cn[2][1][0]
+        if v not in c.mutable or not ints.is_int(c.types.get(v)) or v in c.readonly:
+            bad('`while`: %s (`%s` is not a `let mut` integer of this scope)' % (why, v), line)
+        last = body[-1] if body else None
+        if not (last and last[0] == 'assign' and last[1][0] == 'path' and last[1][1] == [v] and last[2] == '+=' and last[3][0] == 'int'
+                and last[3][1] >= 1):
+            bad('`while`: %s (the body does not end in `%s += <literal>`)' % (why, v), line)
+        if v in self.mutated(body[:-1], set()):
+            bad('`while`: %s (`%s` is changed elsewhere in the body)' % (why, v), line)
+        mut = self.mutated(body, set())
+        bfree = self.free_names(cn[3], [])
+        if any(x in mut for x in bfree):
+            bad('`while`: %s (the bound mentions `%s`, which the body changes)' % (why, [x for x in bfree if x in mut][0]), line)
+        pb, btxt, bt = self.ex(cn[3], c, c.types[v])
+        if pb or bt != c.types[v]:
+            bad('`while`: %s (the bound can panic, or has type %s)' % (why, bt), line)
+        name, n = 'loop' + self.gen_name(c.fn)[3:], 1
+        base = name
+        while name in self.names:
+            n += 1
+            name = base + str(n)
+        self.names.add(name)
+        acc = (['self'] if 'self' in mut else []) + sorted(x for x in mut if x != 'self' and x in c.types)
+        for x in acc:
+            self.check_assignable(c, x, line)
+        free = self.free_names([cnd, body], [])
+        cap = sorted(x for x in free if x in c.types and x not in acc and (x == 'self' or c.types[x] in LEAN_T))
+        tyof = lambda x: 'RState' if x == 'self' else LEAN_T[c.types[x]]
+        acc_pat = vid(acc[0]) if len(acc) == 1 else '(%s)' % ', '.join(vid(x) for x in acc)
+        acc_ty = ' × '.join(tyof(x) for x in acc)
+        if len(acc) > 1:
+            acc_ty = '(%s)' % acc_ty
+        params = ''.join(' (%s : %s)' % (vid(x), tyof(x)) for x in cap)
+        call = name + ''.join(' ' + vid(x) for x in cap)
+        wrap = lambda ty: '(%s)' % ty if ' ' in ty and not ty.startswith('(') else ty
+        flow = 'Flow %s %s' % (wrap(acc_ty), wrap(LEAN_T[c.ret]))
+        cl = c.copy()
+        cl.loop = True
+        cl.readonly = set(cap)
+        pc, ctxt, ct = self.ex(cnd, cl)
+        if pc or ct != 'bool':
+            bad('`while`: the test can panic', line)
+        lines = ['def %s%s : Nat → %s → %s' % (name, params, acc_ty, flow),
+                 '  | 0, %s => if %s then .panic "%s" else .next %s' % (acc_pat, ctxt, self.site(c, 'while (out of fuel)'), acc_pat),
+                 '  | n + 1, %s =>' % acc_pat,
+                 '    if %s then' % ctxt]
+        lines += self.block(body, cl, '      ', lambda c2, i2: [i2 + '%s n %s' % (call, acc_pat)])
+        lines += ['    else', '      .next %s' % acc_pat]
+        self.defs.append(('the `while %s < …` loop of `%s`: the fuel (`bound - %s` iterations suffice: the body ends in `%s += %d`), '
+                          'the accumulators' % (v, c.fn, v, v, last[3][1]), lines))
+        out = [ind + 'match %s (%s - %s) %s with' % (call, btxt, vid(v), acc_pat), ind + '| .panic m => .panic m',
+               ind + '| .ret self v => %s' % ('.ret self v' if c.loop else '.ok self v'),
+               ind + '| .next %s =>' % acc_pat]
+        return out + cont(c, ind + '  ')
 
     # ---- the impl
     def run(self):
@@ -961,11 +1157,11 @@ class Translator:
             c.types['self'] = 'State'
         lparams = []
         for pn, ty in params:
-            if pn in c.types or pn in RESERVED:
+            if pn in c.types or clash_rs(pn):
                 bad('parameter name `%s`' % pn, fline)
             c.types[pn] = ty
             if ty == 'usize':
-                lparams.append('(%s : Nat)' % lean_id(pn))
+                lparams.append('(%s : Nat)' % vid(pn))
         self.tmpn = 0
         gname = self.gen_name(name)
         self.names.add(gname)
@@ -1044,8 +1240,8 @@ def main(argv):
     except Unsupported as e:
         where = '%s:%s: ' % (src, e.line) if e.line else '%s: ' % src
         failure = 'rs2lean_state.py: NOT TRANSLATED - %s%s' % (where, e.msg)
-    except (OSError, IndexError, StopIteration) as e:
-        failure = 'rs2lean_state.py: NOT TRANSLATED - %s: %r' % (src, e)
+    except Exception as e:                  # whatever goes wrong inside the translator is a refusal: never a stale file
+        failure = 'rs2lean_state.py: NOT TRANSLATED - %s: %s: %r' % (src, type(e).__name__, e)
     if failure is not None:
         print(failure)
         if not stub_on_failure or out == '-':
